@@ -100,12 +100,16 @@ type expandResult struct {
 	Budget   bool
 	OutText  []byte
 	Out      interface{}
-	Requests []string
+	// OptionsChanged is non-empty when the option structure handed to the call (reused from call to call, as a caller may) came back different.
+	OptionsChanged string
+	Requests       []string
 	Steps    int
 	MaxDepth int
 	DupRef   string
 	Res      []resolution
 }
+
+var reusedOptions = map[string]*spec.ExpandOptions{}
 
 type expandOpts struct {
 	Skip, Continue, Absolute bool
@@ -143,7 +147,20 @@ func runExpandSpec(w *gen.World, o expandOpts) expandResult {
 				r.Panic = fmt.Sprint(rec)
 			}
 		}()
-		opts := &spec.ExpandOptions{RelativeBase: w.Root, SkipSchemas: o.Skip, ContinueOnError: o.Continue, AbsoluteCircularRef: o.Absolute, PathLoader: ld.load}
+		// the caller keeps one option structure per (location, flags) and reuses it, only pointing the loader at the current documents
+		key := fmt.Sprintf("%s|%v|%v|%v", w.Root, o.Skip, o.Continue, o.Absolute)
+		opts := reusedOptions[key]
+		if opts == nil {
+			opts = &spec.ExpandOptions{RelativeBase: w.Root, SkipSchemas: o.Skip, ContinueOnError: o.Continue, AbsoluteCircularRef: o.Absolute}
+			reusedOptions[key] = opts
+		}
+		opts.PathLoader = ld.load
+		defer func() {
+			if opts.RelativeBase != w.Root || opts.SkipSchemas != o.Skip || opts.ContinueOnError != o.Continue || opts.AbsoluteCircularRef != o.Absolute {
+				r.OptionsChanged = fmt.Sprintf("RelativeBase %q -> %q (skip=%v continue=%v absolute=%v)", w.Root, opts.RelativeBase, opts.SkipSchemas, opts.ContinueOnError, opts.AbsoluteCircularRef)
+				delete(reusedOptions, key)
+			}
+		}()
 		r.Err = spec.ExpandSpec(sw, opts)
 	}()
 	curHooks = nil
